@@ -37,13 +37,25 @@ fn td_run(s: &str) -> (Vec<Cell>, &'static str) {
     let r: TdOut = guarded(move || TimeDelta::parse(&s1).ok().map(td_obs));
     let s2 = s.to_string();
     let r2: TdOut = guarded(move || s2.parse::<TimeDelta>().ok().map(td_obs));
+    // the FromStr impl called by name (timedelta.rs `from_str`), and `From<&str>` (timedelta.rs: parse, panics with the
+    // parse error's message on a rejected string — by design; it must never produce a value parse would not)
+    let s4 = s.to_string();
+    let r4: TdOut = guarded(move || <TimeDelta as std::str::FromStr>::from_str(&s4).ok().map(td_obs));
+    let s5 = s.to_string();
+    let r5: TdOut = guarded(move || Some(td_obs(TimeDelta::from(s5.as_str()))));
     let mut cells = match &r {
         Err(k) => vec![Cell::Panic(*k)],
         Ok(None) => vec![Cell::Err],
         Ok(Some((m, ns))) => vec![Cell::Int(*m as i128), Cell::Int(*ns)],
     };
-    if r2 != r {
+    if r2 != r || r4 != r {
         cells.push(Cell::Uninit) // FromStr disagrees with parse
+    }
+    match (&r, &r5) {
+        (Ok(Some(v)), Ok(Some(w))) if v == w => {}
+        (Ok(None), Err(4)) => {}       // rejected string: From<&str> panics with the error message (panic kind "other")
+        (Err(_), _) => {}              // parse itself panicked: already reported by the first cell
+        _ => cells.push(Cell::Uninit), // From<&str> disagrees with parse
     }
     if let Ok(Some(v)) = &r {
         // the string casts (tea-dtype/src/cast.rs) `expect` a successful parse: checked on accepted strings
@@ -71,7 +83,7 @@ fn td_case(em: &mut Emitter, kind: &str, extra: &str, s: &str) {
     let lenb = if n <= 4 { format!("{}", n) } else if n <= 8 { "5-8".into() } else if n <= 16 { "9-16".into() } else { "17+".into() };
     let nt = if s.is_empty() { " nt=0" } else { "" };
     let tags = format!("fn=TimeDelta::parse kind={} out={} chars={} ascii={}{}{}", kind, out, lenb, s.is_ascii() as u8, extra, nt);
-    let desc = format!("TimeDelta::parse({}) [also FromStr, &str/String cast when accepted]", show(s));
+    let desc = format!("TimeDelta::parse({}) [also FromStr (parse::<_> and from_str), From<&str>, &str/String cast when accepted]", show(s));
     em.case("exact", &tags, &desc, || format!("td {}", coq_str(s)), || cells);
 }
 
@@ -351,6 +363,17 @@ fn dt_fromstr_cell(u: usize, s: &str) -> Cell {
     let s1 = s.to_string();
     with_unit!(u, U, opt_cell(guarded(move || s1.parse::<DateTime<U>>().ok().map(|d| d.0))))
 }
+/// the FromStr impl called by name (impl_datetime.rs `from_str`)
+fn dt_from_str_cell(u: usize, s: &str) -> Cell {
+    let s1 = s.to_string();
+    with_unit!(u, U, opt_cell(guarded(move || <DateTime<U> as std::str::FromStr>::from_str(&s1).ok().map(|d| d.0))))
+}
+/// Uninit marker when either form of FromStr disagrees with `parse(s, None)` = `b`
+fn dt_fromstr_agrees(u: usize, s: &str, b: &Cell, cells: &mut Vec<Cell>) {
+    if dt_fromstr_cell(u, s) != *b || dt_from_str_cell(u, s) != *b {
+        cells.push(Cell::Uninit)
+    }
+}
 fn dt_cast_cell(u: usize, s: &str) -> Cell {
     let s1 = s.to_string();
     with_unit!(u, U, opt_cell(guarded(move || {
@@ -399,9 +422,7 @@ fn dt_case(em: &mut Emitter, u: usize, k: i64, x: i64, band: &str) {
                     cells.push(Cell::Uninit)
                 }
             }
-            if dt_fromstr_cell(u, &text) != b {
-                cells.push(Cell::Uninit)
-            }
+            dt_fromstr_agrees(u, &text, &b, &mut cells);
             if let Cell::Int(_) = b {
                 if dt_cast_cell(u, &text) != b {
                     cells.push(Cell::Uninit)
@@ -511,9 +532,11 @@ fn gen_dt(em: &mut Emitter) {
         let s = mutate(&mut rng, base, &DT_MUT_ALPHA);
         let c = dt_parse_cell(*u, &s, None);
         let out = match c { Cell::Int(_) => "ok", Cell::Err => "err", _ => "panic" };
-        let tags = format!("fn=DateTime::parse kind=mutation unit={} out={}", UNIT_NAMES[*u], out);
-        let desc = format!("DateTime::<{}>::parse({}, None)", UNIT_NAMES[*u], show(&s));
-        em.case("exact", &tags, &desc, || format!("dtp {} {}", u, coq_str(&s)), || vec![c]);
+        let tags = format!("fn=DateTime::parse kind=mutation unit={} out={} fromstr=1", UNIT_NAMES[*u], out);
+        let desc = format!("DateTime::<{}>::parse({}, None) [FromStr: parse::<_> and from_str must agree]", UNIT_NAMES[*u], show(&s));
+        let mut cs = vec![c.clone()];
+        dt_fromstr_agrees(*u, &s, &c, &mut cs);
+        em.case("exact", &tags, &desc, || format!("dtp {} {}", u, coq_str(&s)), || cs);
         if i % 3 == 0 {
             let k = rng.below(11);
             let c = dt_parse_cell(*u, &s, Some(RULES[k]));
@@ -539,9 +562,11 @@ fn gen_dt(em: &mut Emitter) {
             let c = dt_parse_cell(u, s, None);
             let out = match c { Cell::Int(_) => "ok", Cell::Err => "err", _ => "panic" };
             let nt = if s.is_empty() { " nt=0" } else { "" };
-            let tags = format!("fn=DateTime::parse kind=hand unit={} out={}{}", UNIT_NAMES[u], out, nt);
-            let desc = format!("DateTime::<{}>::parse({}, None)", UNIT_NAMES[u], show(s));
-            em.case("exact", &tags, &desc, || format!("dtp {} {}", u, coq_str(s)), || vec![c]);
+            let tags = format!("fn=DateTime::parse kind=hand unit={} out={} fromstr=1{}", UNIT_NAMES[u], out, nt);
+            let desc = format!("DateTime::<{}>::parse({}, None) [FromStr: parse::<_> and from_str must agree]", UNIT_NAMES[u], show(s));
+            let mut cs = vec![c.clone()];
+            dt_fromstr_agrees(u, s, &c, &mut cs);
+            em.case("exact", &tags, &desc, || format!("dtp {} {}", u, coq_str(s)), || cs);
         }
     }
     // arbitrary strings: totality only (the model is not consulted)
@@ -552,9 +577,12 @@ fn gen_dt(em: &mut Emitter) {
         let u = i % 4;
         let c = if i % 2 == 0 { dt_parse_cell(u, &s, None) } else { dt_parse_cell(u, &s, Some(RULES[rng.below(11)])) };
         let nt = if s.is_empty() { " nt=0" } else { "" };
-        let tags = format!("fn=DateTime::parse kind=arbitrary unit={}{}", UNIT_NAMES[u], nt);
-        let desc = format!("DateTime::<{}>::parse({}, ..) must not panic", UNIT_NAMES[u], show(&s));
-        em.case("anyok", &tags, &desc, || "[]".to_string(), || vec![c]);
+        // relational: no panic anywhere; after the separator parse(s, None), s.parse::<_>() and from_str(s) must be one value
+        let b = dt_parse_cell(u, &s, None);
+        let cs = vec![c, Cell::Sep, b, dt_fromstr_cell(u, &s), dt_from_str_cell(u, &s)];
+        let tags = format!("fn=DateTime::parse kind=arbitrary unit={} fromstr=1{}", UNIT_NAMES[u], nt);
+        let desc = format!("DateTime::<{}>::parse({}, ..) must not panic; FromStr (parse::<_>, from_str) = parse(s, None)", UNIT_NAMES[u], show(&s));
+        em.case("custom:agree", &tags, &desc, || "[]".to_string(), || cs);
     }
 }
 
@@ -564,6 +592,13 @@ fn gen_dt(em: &mut Emitter) {
 fn time_cell(s: &str, fmt: Option<&'static str>) -> Cell {
     let s1 = s.to_string();
     opt_cell(guarded(move || Time::parse(&s1, fmt).ok().map(|t| t.0)))
+}
+
+/// the FromStr impl of Time (impl_time.rs `from_str`), through `str::parse` and by name
+fn time_fromstr_cells(s: &str) -> [Cell; 2] {
+    let (s1, s2) = (s.to_string(), s.to_string());
+    [opt_cell(guarded(move || s1.parse::<Time>().ok().map(|t| t.0))),
+     opt_cell(guarded(move || <Time as std::str::FromStr>::from_str(&s2).ok().map(|t| t.0)))]
 }
 
 fn gen_time(em: &mut Emitter) {
@@ -584,9 +619,15 @@ fn gen_time(em: &mut Emitter) {
         let text = if digits == 0 { format!("{:02}:{:02}:{:02}", h, m, s) } else { format!("{:02}:{:02}:{:02}.{:0w$}", h, m, s, frac, w = digits) };
         let fmt: Option<&'static str> = if i % 2 == 0 { None } else { Some("%H:%M:%S%.f") };
         let c = time_cell(&text, fmt);
-        let tags = format!("fn=Time::parse kind=valid fracdigits={} fmt={}", digits, fmt.is_some() as u8);
-        let desc = format!("Time::parse({}, {:?})", show(&text), fmt);
-        em.case("exact", &tags, &desc, || format!("tm {} {} {} {}", h, m, s, ns), || vec![c]);
+        let tags = format!("fn=Time::parse kind=valid fracdigits={} fmt={} fromstr=1", digits, fmt.is_some() as u8);
+        let desc = format!("Time::parse({}, {:?}) [FromStr: parse::<Time>() and from_str = parse(s, None)]", show(&text), fmt);
+        let mut cs = vec![c];
+        let b = time_cell(&text, None);
+        let [f1, f2] = time_fromstr_cells(&text);
+        if f1 != b || f2 != b { cs.push(Cell::Uninit) }
+        // a valid HH:MM:SS[.f] string is accepted without a format too: the FromStr value is the same instant
+        cs.push(f2);
+        em.case("exact", &tags, &desc, || format!("tm {} {} {} {} ++ tm {} {} {} {}", h, m, s, ns, h, m, s, ns), || cs);
     }
     // arbitrary / mutated strings: totality
     let n_a = if thorough { 8000 } else { 800 };
@@ -602,9 +643,11 @@ fn gen_time(em: &mut Emitter) {
         let c = time_cell(&s, fmt);
         let out = match c { Cell::Int(_) => "ok", Cell::Err => "err", _ => "panic" };
         let nt = if s.is_empty() { " nt=0" } else { "" };
-        let tags = format!("fn=Time::parse kind=arbitrary out={}{}", out, nt);
-        let desc = format!("Time::parse({}, {:?}) must not panic", show(&s), fmt);
-        em.case("anyok", &tags, &desc, || "[]".to_string(), || vec![c]);
+        let tags = format!("fn=Time::parse kind=arbitrary out={} fromstr=1{}", out, nt);
+        let desc = format!("Time::parse({}, {:?}) must not panic; FromStr (parse::<Time>, from_str) = parse(s, None)", show(&s), fmt);
+        let [f1, f2] = time_fromstr_cells(&s);
+        let cs = vec![c, Cell::Sep, time_cell(&s, None), f1, f2];
+        em.case("custom:agree", &tags, &desc, || "[]".to_string(), || cs);
     }
 }
 
